@@ -74,3 +74,9 @@ pub fn args() -> std::collections::HashMap<String, String> {
 pub fn arg_u64(m: &std::collections::HashMap<String, String>, k: &str, d: u64) -> u64 {
     m.get(k).and_then(|s| s.parse().ok()).unwrap_or(d)
 }
+
+pub mod exec;
+pub mod pipe;
+pub mod wire;
+pub mod driver;
+pub mod gen;
